@@ -1075,7 +1075,9 @@ xc_get_page(struct page_io *pio)
 	if (idx == IDX_NONE)
 		return set_error(ctx, KDUMP_ERR_NODATA, "Page not found");
 
-	offset = edp->xen_pages_offset + ((off_t)idx << get_page_shift(ctx));
+	/* A corrupt section offset must not overflow off_t. */
+	offset = (off_t) ((uint64_t) edp->xen_pages_offset +
+			  ((uint64_t) idx << get_page_shift(ctx)));
 
 	mutex_lock(&ctx->shared->cache_lock);
 	status = flatmap_get_chunk(ctx->shared->flatmap, &pio->chunk,
